@@ -84,6 +84,11 @@ struct Tracked
         p = nullptr;
     }
     uint64_t get() const { return p ? *p : 0xdeadULL; }
+    // a regular type: a change to the library that starts comparing or ordering values must
+    // still compile into the harness, or the change could not be judged at all
+    friend bool operator==(const Tracked& a, const Tracked& b) { return a.get() == b.get(); }
+    friend bool operator!=(const Tracked& a, const Tracked& b) { return a.get() != b.get(); }
+    friend bool operator<(const Tracked& a, const Tracked& b) { return a.get() < b.get(); }
 };
 
 template<typename K>
